@@ -1,12 +1,18 @@
 SPEC = {
     "claimed": False,
-    "gen": [],
-    "theorems": ["C16_nonvacuous"],
+    "gen": ["mapitems"],
+    "theorems": ["C16_open_total", "C16_accessors_total", "C16_data_inside", "C16_wellformed",
+                 "C16_fixed_unaligned_sizes", "C16_fixed_start_min", "C16_nonvacuous"],
     "allowed_axioms": [],
     "extract": {
         "LibTw2.Model.Datafile": ["reader_new", "item_types", "item_type_indices", "item_type_items", "items",
                                   "num_data", "read_data", "find_item", "serialize_stored", "group_items",
                                   "words_of_bytes"],
+        "LibTw2.Model.MapReader": ["map_version", "map_check_version", "map_info", "map_group_indices", "map_group",
+                                   "map_layer", "map_image", "map_game_layers", "map_string", "map_image_name",
+                                   "map_settings", "map_settings_list", "map_tiles_raw", "map_tiles", "map_read"],
+        "LibTw2.Gen.MapItems": ["MAP_ITEMTYPE_IMAGE", "size_of_Tile", "size_of_TeleTile", "size_of_SpeedupTile",
+                                "size_of_SwitchTile", "size_of_TuneTile"],
     },
     "components": [{"bin": "datafile", "driver": "drv_datafile", "timeout": {"quick": 600, "thorough": 3000}}],
     "release": False,
